@@ -342,8 +342,13 @@ def _check(pid, tier, seed, mods, workdir, only, say, t0):
         violations.append((rp, r, text))
       else:
         os.unlink(rp)
-        harness_errors.append("%s: counterexample %s(%s) does not reproduce natively: %s" %
-                              (r["tag"], fn, argstr, text[-300:]))
+        # a solver counterexample that the unmodified code does not exhibit: the encoding (a CrossHair model of a
+        # builtin, a bare 'except:' in gfapy swallowing a path-steering exception, ...) is imprecise here.  It is
+        # never reported as a violation; the obligation stays undischarged.
+        r["verdict"] = "spurious"
+        (harness_errors if ok is None else inconclusive).append(
+            "%s: solver counterexample %s(%s) does not reproduce natively (%s): obligation not discharged" %
+            (r["tag"], fn, argstr, text[-200:]))
     elif r["verdict"] == "error":
       harness_errors.append("%s: %s %s" % (r["tag"], r["detail"], " | ".join(r.get("stderr_tail", []))))
     elif r["verdict"] == "inconclusive":
